@@ -211,6 +211,11 @@ Definition session_skipped (cs : list case) : N :=
                      | _ => false
                      end
      | _ => false end) cs)).
+(* class hierarchies of the run that have the depth as a rank: the ones theorem C19_class_order_ok speaks about *)
+Definition class_ranked_count (cs : list case) : N :=
+  N.of_nat (List.length (filter (fun c => match c with CCase h _ => acyclic_by (depth_rank h) h | _ => false end) cs)).
+Definition class_case_count (cs : list case) : N :=
+  N.of_nat (List.length (filter (fun c => match c with CCase _ _ => true | _ => false end) cs)).
 Definition guard_count (cs : list case) : N := N.of_nat (List.length (filter guarded cs)).
 Definition unmodelled_count (cs : list case) : N :=
   N.of_nat (List.length (filter (fun c => match c with DCase v _ _ _ _ =>
